@@ -32,7 +32,7 @@ func c06Key(r *rng.R) string {
 func runC06(c *fw.Ctx) {
 	steps := c.N(40, 60)
 	c.Cases("programs", c.N(1500, 600000), false, func(i int, r *rng.R) {
-		p := &prog{c: c, r: r, h: &model.Heap{}, lazy: i%2 == 1, ctx: i%3 == 0}
+		p := &prog{c: c, r: r, h: &model.Heap{}, lazy: i%2 == 1, ctx: i%3 == 0, derived: i%4 == 1}
 		guard(c, p.input, func() {
 			c06Program(p, steps)
 			p.checkHeap()
@@ -87,6 +87,25 @@ func c06NewObject(p *prog) {
 			}
 			vals[i] = p.anyVal(nil, 2)
 			args = append(args, keys[i], p.sized(h.Arg(vals[i])))
+		}
+		if p.derived && r.Chance(1, 4) {
+			// a derived structure (a user type embedding an Object, registered with Init) is an Object like any other
+			which := r.Intn(3)
+			p.step("NewObject", fmt.Sprintf("%s = derived object (embedding level %d) of (%s)", n.Name(), which+1, showPairs(keys, vals)), false, func() {
+				for i := range keys {
+					n.M[keys[i]] = vals[i]
+				}
+				switch which {
+				case 0:
+					n.Real = NewDObject(args...)
+				case 1:
+					n.Real = NewDDObject(args...)
+				default:
+					n.Real = NewDDDObject(args...)
+				}
+			})
+			p.c.Count("derived_objects_in_programs")
+			return
 		}
 		p.step("NewObject", fmt.Sprintf("%s = NewObject(%s)", n.Name(), showPairs(keys, vals)), false, func() {
 			for i := range keys {
